@@ -23,7 +23,10 @@ library given as (kind, implementation) blocks; answer as for `xform`.
 `substok` (arguments as `subst`) — the hypotheses of `C10.substitute_sem` evaluated on the case, `1`/`0` each:
 `<host wf> <impl wf> <cell no port> <cell no fork> <keepsAllB> <implOKB> <regularB> <result wf> <noIgnoredB> <result wfNoTrail> <denseB>`
 (`-` for the result flags when the model answers `raise`; `denseB` = 0: a copied fork had a gap that the loop added with the
-repair of D30 squeezed out — the theorems hold there too, the flag only counts such cases).  `resolveok` (arguments as `resolve`) — those of `C10.resolve_sem`: `<host wf> <resolveOKB> <result wf> <first failing condition or ok>`. -/
+repair of D30 squeezed out — the theorems hold there too, the flag only counts such cases), followed by the hypotheses of
+`C10.substitute_sem_general`: `<host wfNoTrail> <implGenOKB> <noSelfIgnB> <hasIgnoredB> <designated cell exists>`.
+`resolveok` (arguments as `resolve`) — those of `C10.resolve_sem`: `<host wf> <resolveOKB> <result wf> <first failing condition or ok>`,
+followed by those of `C10.resolve_sem_general`: `<host wfNoTrail> <resolveGenOKB> <result wfNoTrail> <first failing condition or ok>`. -/
 namespace KV.Drv.Transform
 open KV KV.Transform
 
@@ -99,7 +102,9 @@ def handleSubstOk (args : List String) : String :=
     let ci := c.toNat!
     " ".intercalate [b01 h.wf, b01 m.wf, b01 (!(h.net.io.contains ci)), b01 (!((h.net.node ci).isFork)), b01 (keepsAllB h ci m),
       b01 (implOKB m), b01 (regularB h ci m), (match substitute h ci m with | some r => b01 r.wf | none => "-"),
-      b01 (noIgnoredB h ci m), (match substitute h ci m with | some r => b01 r.wfNoTrail | none => "-"), b01 (denseB h ci m)]
+      b01 (noIgnoredB h ci m), (match substitute h ci m with | some r => b01 r.wfNoTrail | none => "-"), b01 (denseB h ci m),
+      b01 h.wfNoTrail, b01 (implGenOKB m), b01 (noSelfIgnB h ci m), b01 (hasIgnoredB h ci m),
+      b01 (match implShape m with | some sh => sh.des.isSome | none => false)]
   | _ => "bad-args"
 
 /-- `resolve <host names> <host dump...> @@ <kind> <impl names> <impl dump...> @@ <kind> ...` -/
@@ -137,6 +142,23 @@ def resolveWhy (lib : Lib) : List (String × Bool) → NNet → String
       | none => resolveWhy lib rest cur
     else resolveWhy lib rest cur
 
+/-- first reason why `resolveGenOKB` fails along the loop (`ok` when it holds) -/
+def resolveGenWhy (lib : Lib) : List (String × Bool) → NNet → String
+  | [], _ => "ok"
+  | key :: rest, cur =>
+    let i := cur.lookup key
+    if i < cur.net.nodes.size then
+      match lib.find (cur.net.node i).kind with
+      | some impl =>
+        if !impl.wf then "impl-wf" else if !(implGenOKB impl) then "implGenOK:" ++ pct (cur.net.node i).kind
+        else if !(noSelfIgnB cur i impl) then "selfIgnored:" ++ pct (cur.net.node i).kind
+        else if cur.net.io.contains i then "cell-is-port" else if (cur.net.node i).isFork then "cell-is-fork"
+        else match substitute cur i impl with
+          | some nxt => resolveGenWhy lib rest nxt
+          | none => "raise"
+      | none => resolveGenWhy lib rest cur
+    else resolveGenWhy lib rest cur
+
 def handleResolveOk (args : List String) : String :=
   match splitBlocks args with
   | (hn :: hd) :: libBlocks =>
@@ -145,7 +167,8 @@ def handleResolveOk (args : List String) : String :=
       | kind :: mn :: md => some (unpct kind, { net := parseNet (" ".intercalate md), names := parseNames mn })
       | _ => none
     " ".intercalate [b01 h.wf, b01 (resolveOKB lib h.keys h), (match resolveCells lib h with | some r => b01 r.wf | none => "-"),
-      resolveWhy lib h.keys h]
+      resolveWhy lib h.keys h, b01 h.wfNoTrail, b01 (resolveGenOKB lib h.keys h),
+      (match resolveCells lib h with | some r => b01 r.wfNoTrail | none => "-"), resolveGenWhy lib h.keys h]
   | _ => "bad-args"
 
 def showMaps : Option (NNet × Ren) → String
